@@ -1,7 +1,7 @@
 (* Property C01 - no inflation: coins are conserved in every committed ledger state.
    Statements only; proofs are in Proofs/Conservation.v and Proofs/NodeBasics.v. *)
 From Virel Require Import Lib.Config Lib.U64 Lib.AMap Model.Emission Model.Ledger Model.Node
-  Proofs.Emission Proofs.Conservation Proofs.NodeBasics Gen.Params.
+  Proofs.Emission Proofs.Conservation Proofs.NodeBasics Proofs.Staking Proofs.StakedSum Gen.Params.
 Open Scope N_scope.
 
 (* side condition on the constants, discharged at every generated configuration *)
@@ -46,3 +46,58 @@ Theorem C01_reject_unchanged : forall cfg genesis_addr team_key n b now n' c amb
   deliver cfg genesis_addr team_key n b now = (n', Rejected c, amb) -> n' = n.
 Proof. exact deliver_rejected_unchanged. Qed.
 Print Assumptions C01_reject_unchanged.
+
+(* ---- second sentence of the property: the network-wide staked total equals the sum over all pools of their
+   members' funds ----
+   [SInv l] = the delegate table is ordered by database key, every record is filed under its own id,
+   [staked l] = [sum_tot (dlgs l)] (the exact, unbounded sum over all pools of all member funds) and [staked l] < 2^64. *)
+Theorem C01_staked_sum_initial : SInv ledger0.
+Proof. exact SInv0. Qed.
+Print Assumptions C01_staked_sum_initial.
+
+(* ApplyTxToState of a transaction of ANY of the five kinds (uint64-typed amounts) on ANY ledger with the invariant *)
+Theorem C01_staked_sum_apply_tx : forall cfg l t h bh top_h l',
+  SInv l -> wf_tx cfg t -> apply_tx cfg l t h bh top_h = Ok l' -> SInv l'.
+Proof. exact apply_tx_SInv. Qed.
+Print Assumptions C01_staked_sum_apply_tx.
+
+(* a staker reward raises the pool total and the network-wide total by exactly the reward *)
+Theorem C01_staked_sum_reward : forall l bh o l',
+  SInv l -> o_amt o < two64 -> apply_pos_reward l bh o = Ok l' -> SInv l' /\ staked l' = staked l + o_amt o.
+Proof. exact apply_pos_reward_SInv. Qed.
+Print Assumptions C01_staked_sum_reward.
+
+(* ApplyBlockToState (transactions, coinbase split, staker reward) *)
+Theorem C01_staked_sum_apply_block : forall cfg genesis_addr, cfg_ok_emission cfg = true ->
+  forall l b top_h l',
+  total_bal l + reward cfg (lb_height b) <= max_supply cfg ->
+  Forall (tx_ok cfg) (lb_txs b) -> SInv l ->
+  apply_block cfg genesis_addr l b top_h = Ok l' -> SInv l'.
+Proof. exact apply_block_SInv. Qed.
+Print Assumptions C01_staked_sum_apply_block.
+
+(* every ledger reached along a chain of any length *)
+Theorem C01_staked_sum_chain : forall cfg genesis_addr, cfg_ok_emission cfg = true ->
+  forall bs l (h : nat) l',
+  total_bal l = sum_rewards cfg h -> heights_from h bs ->
+  Forall (fun b => Forall (tx_ok cfg) (lb_txs b)) bs -> SInv l ->
+  apply_chain cfg genesis_addr l bs = Ok l' -> SInv l'.
+Proof. exact apply_chain_SInv. Qed.
+Print Assumptions C01_staked_sum_chain.
+
+(* RemoveTxFromState (the disconnect half of a reorganisation), any kind *)
+Theorem C01_staked_sum_remove_tx : forall cfg l t bh top_h l',
+  SInv l -> wf_tx cfg t -> remove_tx cfg l t bh top_h = Ok l' -> SInv l'.
+Proof. exact remove_tx_SInv. Qed.
+Print Assumptions C01_staked_sum_remove_tx.
+
+(* undoing a staker reward restores the pool record saved under the block hash: PARTIAL - the invariant is kept when
+   that record is the pool as it was before the reward (what ApplyPosReward stores; that the store still holds it at
+   disconnect time is an invariant over the delegate-history table that is not proved here, it is covered by the
+   per-state check of the correspondence run) *)
+Theorem C01_staked_sum_remove_reward_partial : forall l bh o l',
+  SInv l -> o_amt o < two64 ->
+  (forall d old, get_dlg l (o_extra o) = Some d -> nget (dhist l) bh = Some old -> tot old + o_amt o = tot d) ->
+  remove_pos_reward l bh o = Ok l' -> SInv l' /\ staked l' + o_amt o = staked l.
+Proof. exact remove_pos_reward_SInv. Qed.
+Print Assumptions C01_staked_sum_remove_reward_partial.
